@@ -31,6 +31,11 @@ import Thanos.Model.ShuffleShard
               none), and per zone the positions math/rand draws for (tenant, zone) (zone `-` when za = 0)
     -> `;`-list: sorted positions (in eps) of the tenant's nodes `i.j.k` | toobig | toofew | stuck
 
+  shardr <za> <rf> <cap> <epsA> <dfltA> <ovsA> <reqsA> <epsB> <dfltB> <ovsB> <reqsB1> <reqsB2>
+      a configuration update: requests on ring A; ring B (another configuration, same registerer and hashring
+      name) is built while A is open; requests B1 on B; A is closed; requests B2 on B
+    -> <answers A> <answers B1> <answers B2>   (each as in shard; `-` for an empty list)
+
   shardg <za> <rf> <eps> <big> <dflt> <ovs> <req> <series>    one tenant, end to end: selection on the base ring
       (eps), then the sub-ring over the selected nodes with their production sections (big = `,`-list, per
       endpoint of eps, of the hashes of its SectionsPerNode sections), then GetN(0..rf-1) for the series
@@ -268,6 +273,27 @@ def shardAnswer (za : Bool) (rf : Nat) (zoneTab : List String) (eps : List Ep) (
       if !canBalance sizes rf then some "stuck"
       else some (showNats "." (final.mergeSort (fun a b => decide (a ≤ b))))
 
+/-- the answers of a history of tenant requests on ONE shuffle shard ring (its own cache, empty at first) -/
+def shardHistory (za : Bool) (rf cap : Nat) (eps dflt ovs reqs : String) : Option (List String) :=
+  match parseEpsZ eps, parseNat? dflt, parseOvs ovs, (listOf ';' reqs).mapM parseShardReq with
+  | some (ztab, eps), some dflt, some ovs, some rs =>
+    let ring := mkRing eps
+    -- all requests of one tenant carry the same tables: compute by tenant, cache by tenant
+    let compute (t : String) : Option String :=
+      match rs.find? (·.tenant == t) with
+      | some r =>
+        match shardAnswer za rf ztab eps ring dflt ovs r with
+        | some a => if a = "toobig" ∨ a = "toofew" ∨ a = "stuck" then none else some a
+        | none => none
+      | none => none
+    let errOf (t : String) : String :=
+      match rs.find? (·.tenant == t) with
+      | some r => (shardAnswer za rf ztab eps ring dflt ovs r).getD "bad-op"
+      | none => "bad-op"
+    let answers := ShuffleShard.getCachedSeq compute cap [] (rs.map (·.tenant))
+    some ((answers.zip (rs.map (·.tenant))).map fun (a, t) => match a with | some s => s | none => errOf t)
+  | _, _, _, _ => none
+
 def handle : List String → String
   | ["ket", mode, rf, nq, eps, series] =>
     match parseNat? rf, parseNat? nq, parseEps eps, parseSeries series with
@@ -287,25 +313,23 @@ def handle : List String → String
       else "bad-op"
     | _, _, _, _ => "bad-op"
   | ["shard", za, rf, cap, eps, dflt, ovs, reqs] =>
-    match parseNat? rf, parseNat? cap, parseEpsZ eps, parseNat? dflt, parseOvs ovs, (listOf ';' reqs).mapM parseShardReq with
-    | some rf, some cap, some (ztab, eps), some dflt, some ovs, some rs =>
-      let ring := mkRing eps
-      let za := za = "1"
-      -- all requests of one tenant carry the same tables: compute by tenant, cache by tenant
-      let compute (t : String) : Option String :=
-        match rs.find? (·.tenant == t) with
-        | some r =>
-          match shardAnswer za rf ztab eps ring dflt ovs r with
-          | some a => if a = "toobig" ∨ a = "toofew" ∨ a = "stuck" then none else some a
-          | none => none
-        | none => none
-      let errOf (t : String) : String :=
-        match rs.find? (·.tenant == t) with
-        | some r => (shardAnswer za rf ztab eps ring dflt ovs r).getD "bad-op"
-        | none => "bad-op"
-      let answers := ShuffleShard.getCachedSeq compute cap [] (rs.map (·.tenant))
-      joinWith ";" ((answers.zip (rs.map (·.tenant))).map fun (a, t) => match a with | some s => s | none => errOf t)
-    | _, _, _, _, _, _ => "bad-op"
+    match parseNat? rf, parseNat? cap with
+    | some rf, some cap =>
+      match shardHistory (za = "1") rf cap eps dflt ovs reqs with
+      | some as => joinWith ";" as
+      | none => "bad-op"
+    | _, _ => "bad-op"
+  | ["shardr", za, rf, cap, epsA, dfltA, ovsA, reqsA, epsB, dfltB, ovsB, reqsB1, reqsB2] =>
+    -- ring A, then ring B built with the same registerer and name while A is open, A closed between
+    -- the two request lists of B: every ring instance has its own, initially empty, cache
+    match parseNat? rf, parseNat? cap with
+    | some rf, some cap =>
+      let b1 := listOf ';' reqsB1
+      let b := joinWith ";" (b1 ++ listOf ';' reqsB2)
+      match shardHistory (za = "1") rf cap epsA dfltA ovsA reqsA, shardHistory (za = "1") rf cap epsB dfltB ovsB b with
+      | some aa, some ab => joinWith ";" aa ++ " " ++ joinWith ";" (ab.take b1.length) ++ " " ++ joinWith ";" (ab.drop b1.length)
+      | _, _ => "bad-op"
+    | _, _ => "bad-op"
   | ["shardg", za, rf, eps, big, dflt, ovs, req, series] =>
     match parseNat? rf, parseEpsZ eps, (listOf ',' big).mapM (parseNats? '.'), parseNat? dflt, parseOvs ovs,
       parseShardReq req, parseSeries series with
